@@ -83,7 +83,7 @@ double gcirc(double ra1, double dec1,
 {
 
     double sindec1, cosdec1, sindec2, cosdec2, 
-           radiff, cosradiff, dis, cosdis; 
+           radiff, cosradiff, dis, cosdis, sindis_n, sindis_e; 
 
     if (ra1 == ra2 && dec1 == dec2) {
         return 0.0;
@@ -100,10 +100,13 @@ double gcirc(double ra1, double dec1,
 
     cosdis = sindec1*sindec2 + cosdec1*cosdec2*cosradiff;
 
-    if (cosdis < -1.0) cosdis=-1.0;
-    if (cosdis >  1.0) cosdis= 1.0;
+    // acos(cosdis) cannot tell separations below ~1e-6 degrees from zero
+    // (and is off by up to that much below an arcsecond): take the angle
+    // from its sine (north and east components) and its cosine instead
+    sindis_n = cosdec1*sindec2 - sindec1*cosdec2*cosradiff;
+    sindis_e = cosdec2*sin(radiff);
 
-    dis = acos(cosdis);
+    dis = atan2(sqrt(sindis_n*sindis_n + sindis_e*sindis_e), cosdis);
     if (degrees) {
         dis *= R2D;
     }
